@@ -177,3 +177,56 @@ Example pinned_saturating_skew_examples :
   map (model_window_ok 1790000000 5) [1790000000000; 2 ^ 40; 2 ^ 62; 0; -(2 ^ 62); 1790000005; 1790000006]
   = [false; false; false; false; false; true; false].
 Proof. vm_compute. split; reflexivity. Qed.
+
+(* seeded/C18-6: the response writer encrypts and SENDS full 32 KiB chunks as they fill, each
+   piece base64-encoded separately.  ECB blocks are independent, so the ciphertext is the same —
+   but base64 works in groups of 3 bytes: the encoding of a concatenation is the concatenation of
+   the encodings only when the first piece is a whole number of groups; otherwise '=' padding
+   lands in the middle and the body is no longer one base64 document.  32768 is not a multiple of 3. *)
+Definition b64pad : Z := 64.                  (* the '=' character; sextets are 0..63 *)
+
+Fixpoint b64 (l : list Z) : list Z :=
+  match l with
+  | a :: b :: c :: r => [a / 4; (a mod 4) * 16 + b / 16; (b mod 16) * 4 + c / 64; c mod 64] ++ b64 r
+  | [a; b] => [a / 4; (a mod 4) * 16 + b / 16; (b mod 16) * 4; b64pad]
+  | [a] => [a / 4; (a mod 4) * 16; b64pad; b64pad]
+  | [] => []
+  end.
+
+(* whole groups first: piecewise encoding is the encoding *)
+Lemma b64_app_groups : forall n x y, length x = (3 * n)%nat -> b64 (x ++ y) = b64 x ++ b64 y.
+Proof.
+  induction n as [|n IH]; intros x y L.
+  - destruct x; [reflexivity|cbn in L; discriminate].
+  - destruct x as [|a [|b [|c x]]]; cbn in L; try lia.
+    change ((a :: b :: c :: x) ++ y) with (a :: b :: c :: (x ++ y)).
+    cbn [b64]. rewrite (IH x y) by lia. rewrite <- app_assoc. reflexivity.
+Qed.
+
+(* a piece that is not a whole number of groups ends in '=' ... *)
+Lemma b64_partial_ends_in_pad : forall n x,
+  (length x = 3 * n + 1 \/ length x = 3 * n + 2)%nat -> last (b64 x) 0 = b64pad.
+Proof.
+  induction n as [|n IH]; intros x L.
+  - destruct x as [|a [|b [|c x]]]; cbn in L; try lia; reflexivity.
+  - destruct x as [|a [|b [|c x]]]; cbn in L; try lia.
+    cbn [b64]. specialize (IH x ltac:(lia)).
+    destruct (b64 x) as [|s r] eqn:Bx.
+    + destruct x as [|a' [|b' [|c' x']]]; cbn in L, Bx; try lia; discriminate.
+    + change ([a / 4; (a mod 4) * 16 + b / 16; (b mod 16) * 4 + c / 64; c mod 64] ++ s :: r)
+        with (a / 4 :: (a mod 4) * 16 + b / 16 :: (b mod 16) * 4 + c / 64 :: c mod 64 :: s :: r).
+      cbn [last]. cbn [last] in IH. exact IH.
+Qed.
+
+(* ... so followed by anything it puts '=' in the middle, while the encoding of the whole has
+   padding only at the very end: piecewise base64 is refuted *)
+Theorem pinned_piecewise_base64_refuted :
+  exists x y, b64 x ++ b64 y <> b64 (x ++ y) /\ In b64pad (b64 x) /\ ~ In b64pad (b64 (x ++ y)).
+Proof.
+  exists [1; 2], [3]. vm_compute. split; [discriminate|]. split; [right; right; right; left; reflexivity|].
+  intros [H|[H|[H|[H|[]]]]]; discriminate.
+Qed.
+
+(* the chunk size of the seeded change leaves a partial group *)
+Example chunk_size_is_not_a_multiple_of_three : (32768 mod 3 = 2) /\ (32768 mod 16 = 0) /\ (98304 mod 3 = 0).
+Proof. vm_compute. repeat split; reflexivity. Qed.
